@@ -71,6 +71,16 @@ CLAIMED = {
         technique="TLA+ spec ServerConn (reader, inline and off-reader dispatch, outbound FIFO) checked by TLC incl. liveness; pipelined raw-byte request sequences against the four real dispatch paths trace-validated by TLC (response count, codes, echo, invocation, FIFO, cross-transport equality)",
         text="TLC checks the connection model for request mixes under caps 1-3 and unlimited: exactly one response per request and none per notify, handler invoked once iff dispatched, inline FIFO, and that every request is eventually answered. Pipelined sequences of 64 raw requests covering all ordered pairs of 26 request classes x notify flag (valid/invalid version, query formats, non-UTF-8 query, unknown path, every handler kind, body formats with good and bad bodies) are sent to the blocking TCP server, the async TCP server and the WebSocket server (inline and off-reader routes); the trace specification judges response counts, error codes, query echo, handler invocations, inline ordering and equality of the response fields across the four paths.",
         note="Trusts TLC, the raw clients and the request-class table. Error-response bodies are free text and not compared."),
+    "C16": dict(
+        category="model_checking", design_ref="DESIGN.md §5 C16",
+        technique="TLA+ spec ServerConn (off-reader permits: try-acquire, handler exit, enqueue, release as separate steps) checked by TLC incl. liveness NoLeak; release-order schedules executed on the real WebSocket server with gate-parked handlers through a raw client and trace-validated by TLC",
+        text="TLC checks the permit protocol for caps 1-3 and unlimited over mixes of returning, erroring and panicking handlers, notifies and inline traffic: the cap is respected, a saturation reply only answers off-reader requests, a panic is contained and reported as InternalError, every permit eventually returns and every request is answered. On the implementation, every release order for caps 1..3 (4) with rotating exit kinds, and random orders for caps 4, 8, 16 and unlimited, run against handlers parked on harness gates behind a forwarding middleware: a gauge of running handlers, the saturation reply and an inline round trip while the others are parked, the response code of each exit kind with the request's id, a dropped saturated notify, and a slot probe after every exit are validated by the trace specification.",
+        note="Trusts TLC and the raw WebSocket peer. Immediate = arrives while the others are parked; a slot counts as leaked after 10 s of refused retries."),
+    "C17": dict(
+        category="model_checking", design_ref="DESIGN.md §5 C17",
+        technique="TLA+ outbound guard (ServerConn!Guard, invariant NoOversize) checked by TLC; the (path, limit, size) product executed against the real server, proxy and client with a raw peer measuring every binary message, judged by TLC (Trace_Guard)",
+        text="TLC checks that with a limit configured no oversize message reaches the wire and the one-response discipline survives the replacement. For limits 1 KiB and 64 KiB (plus 4 KiB and 16 MiB in the thorough tier) and none, and frame sizes limit-2..limit+2, limit/2 and 4/3 limit, each of seven outbound paths (inline response, off-reader response, proxy-forwarded response, handler-pushed notify, registry broadcast, client request, client notify) is exercised; a raw peer records the byte length of every binary message, error hooks and call results are recorded, and the trace specification requires unchanged delivery at or below the limit, an InternalError replacement with the same id / a reported drop / a local MessageTooLarge above it, and a usable connection afterwards.",
+        note="Trusts TLC and the raw peer's length measurement."),
 }
 
 NOT_YET = {}
